@@ -815,8 +815,18 @@ func (t *Topic) handleLeaveRequest(msg *ClientComMessage, sess *Session) {
 			if !uid.IsZero() {
 				if pud.online == 0 {
 					if asChan {
-						// Simply delete record from perUserData
-						delete(t.perUser, uid)
+						// Delete the reader's record from perUserData, unless another session of the reader (a background
+						// one, which is not counted as online) is still attached: it is served from this record.
+						stillAttached := false
+						for _, p := range t.sessions {
+							if p.uid == uid {
+								stillAttached = true
+								break
+							}
+						}
+						if !stillAttached {
+							delete(t.perUser, uid)
+						}
 					} else {
 						t.presSubsOnline("off", uid.UserId(), nilPresParams, readFilter, "")
 					}
